@@ -52,6 +52,13 @@ def allSel (d : Dataset) : List Json :=
         | [_], .plain (.arr _ xs) => xs.map fun x => jArr [jStr v.name, jStr c.name, putVal x, jOpt putVal (sel valEq da c.name x)]
         | _, _ => []
 
+/-- an output whose value is a Python `list` (a plain function returning a list): the 1-D array of the run model, as a tuple
+    value — `singleDims` then stores it dimensionless (what `_as_0d` does in `_xarray_dataset`) -/
+def listify (lists : List String) (e : String × Val) : String × Val :=
+  match e with
+  | (n, .arr [k] es) => if lists.contains n then (n, .tup es) else (n, .arr [k] es)
+  | e => e
+
 def handle (m : String) (a : Json) : R Json := do
   match m with
   | "xlabel" =>
@@ -59,9 +66,12 @@ def handle (m : String) (a : Json) : R Json := do
     let inputs ← getKw (← fld a "inputs")
     let internal := (← optF (asList (asPair asStr (asList asNat))) a "internal").getD []
     let li ← boolF a "load_intermediate"
+    let lists := (← optF (asList asStr) a "lists").getD []
+    let subset := ((← optF (asOpt (asList asStr)) a "subset").getD none).getD []
     match runMap fs inputs internal with
     | .error e => return jObj [("map", putMErr e)]
-    | .ok r =>
+    | .ok r0 =>
+      let r : MapResult := { r0 with outputs := r0.outputs.map (listify lists), stored := r0.stored.map (listify lists) }
       let mss := pipelineMapspecs fs
       let inputs := effectiveInputs fs inputs
       let d1 := fromResults mss inputs r li
@@ -72,7 +82,8 @@ def handle (m : String) (a : Json) : R Json := do
         match xarrayOf mss inputs (alookup r.stored) li o with
         | .ok da => jArr [jStr o, putDims da.dims, jList putCoord da.coords]
         | .error e => jArr [jStr o, putMErr e]
-      return jObj [("results", putM d1), ("folder", putM d2), ("same", jBool ((putM d1).compress == (putM d2).compress)),
+      let d3 := xarrayDataset mss inputs (alookup r.stored) subset li
+      return jObj [("results", putM d1), ("folder", putM d2), ("subset", putM d3), ("same", jBool ((putM d1).compress == (putM d2).compress)),
                    ("mapspec_axes", jList (fun n => jPair jStr (jOpt putDims) (n, mapspecAxes mss n)) ((allSpecs mss).map (·.name)).eraseDups),
                    ("deps", jList (fun o => jPair jStr (jList (jPair jStr (jList jStr))) (o, traceDependencies mss o)) (akeys (mapspecMapping mss))),
                    ("sel", jArr sels), ("arrays", jArr arrays)]
